@@ -91,6 +91,10 @@ impl YaSerialize for Probe {
             let mut out = attributes;
             out.push(attr());
             unsafe { RET_ATTR_PTR = out.as_ptr() as usize };
+            // ... and a namespace scope with one more declaration (a value that declares its own prefix), so that a wrapper
+            // that hands the caller's scope back instead of the value's is visible
+            let mut namespace = namespace;
+            namespace.put("p", "u");
             Ok((out, namespace))
         } else {
             std::mem::forget(attributes);
@@ -224,8 +228,9 @@ fn c19_serialize_attributes() {
     let (seen_ptr, seen_len) = one_event(Ev::SerAttr, tag);
     assert!(seen_ptr == in_ptr && seen_len == n * 16, "C19 the caller's attributes and namespace reach the wrapped value");
     match &res {
-        Ok((out, _ns)) => {
+        Ok((out, ns_out)) => {
             assert!(ok, "C19 same serialize_attributes result");
+            assert!(ns_out.0.len() == 1, "C19 the namespace declarations the wrapped value adds are returned");
             assert!(out.as_ptr() as usize == unsafe { RET_ATTR_PTR } && out.len() == n + 1, "C19 the wrapped value's attributes are returned unchanged");
         }
         Err(s) => assert!(!ok && s.as_bytes().len() == 1 && s.as_bytes()[0] == b, "C19 same serialize_attributes error"),
